@@ -93,8 +93,12 @@ class ServiceAccessPoint(object):
             except ValueError:
                 pass
             if len(self.sock_list) == 0:
-                # completely remove this sap
+                # completely remove this sap and the service names
+                # that were registered for its address
                 self.llc.sap[self.addr] = None
+                for name in [name for name, addr in self.llc.snl.items()
+                             if addr == self.addr]:
+                    del self.llc.snl[name]
 
     def send(self, send_pdu):
         self.send_list.append(send_pdu)
